@@ -76,8 +76,10 @@ let run_case cid (t : toks) =
     gather cid "NEW" (List.map (fun o ->
         let v = o.ro_view in let nl = List.length v.rv_on in let f = int_of_nat v.rv_first in
         let lrm = List.init nl (fun i -> f + i) in
-        Printf.sprintf "%s NLR %s LRM %s OCM %s FC %d GC %d NC %d END" (view_str gn v) (nats_str o.ro_nlr)
-          (ints_str lrm) (ints_str lrm) f gn nl) out);
+        let nnz = List.fold_left (fun a r -> a + List.length r) 0 (v.rv_on @ v.rv_off) in
+        let firsts = List.map (fun o2 -> int_of_nat o2.ro_view.rv_first) out @ [gn] in
+        Printf.sprintf "%s NLR %s LRM %s OCM %s FC %d GC %d NC %d PT %d %d %d %d %d %d %d %d %d %d FCS %s END" (view_str gn v) (nats_str o.ro_nlr)
+          (ints_str lrm) (ints_str lrm) f gn nl f (f + nl - 1) f (f + nl - 1) nl nl gn gn (List.length v.rv_colmap) nnz (ints_str firsts)) out);
     gather cid "PKG" (List.map (fun o ->
         let rp = List.map (fun m -> int_of_nat (fst m)) o.ro_recv in
         let rc = List.map (fun m -> List.init (int_of_nat (snd m)) (fun _ -> ())) o.ro_recv in
